@@ -1,17 +1,124 @@
-//! C18(b): asset buffers under at-rest storage faults. Builders live in assets_gen.rs.
+//! C18(b): asset buffers under at-rest storage faults. The valid objects come from the
+//! per-format builders in assets_gen.rs (written from the binrw grammars); this file feeds a
+//! (possibly damaged) stored object to the matching physis entry point and its follow-up calls
+//! under the crash, time and allocation monitors.
 
+use super::assets_gen as gen;
 use super::damage::Damage;
 use crate::formats::Field;
 use crate::harness::Harness;
 
-pub const FORMATS: &[&str] = &[];
+pub const FORMATS: &[&str] = gen::FORMATS;
 
-pub fn build(_format: &str, _seed: u64) -> Vec<u8> {
-    panic!("HARNESS: no asset builders yet")
+pub fn build(format: &str, seed: u64) -> Vec<u8> {
+    gen::build(format, seed)
 }
 
-pub fn fields(_format: &str, _seed: u64) -> Vec<Field> {
-    vec![]
+pub fn fields(format: &str, seed: u64) -> Vec<Field> {
+    gen::fields(format, seed)
+        .into_iter()
+        .map(|f| Field { name: f.name, off: f.off, width: f.width, be: f.be })
+        .collect()
 }
 
-pub fn run_asset(_h: &mut Harness, _format: &str, _seed: u64, _damage: &[Damage]) {}
+/// Calls the entry point of `format` and the follow-up calls the property names. Returns true
+/// if the parser produced a value.
+fn parse(format: &str, seed: u64, b: &[u8], companion: Option<&[u8]>) -> bool {
+    match format {
+        "tex" => physis::tex::Texture::from_existing(b).is_some(),
+        "exh" => physis::exh::EXH::from_existing(b).is_some(),
+        "exd" => {
+            let exh = companion.and_then(physis::exh::EXH::from_existing);
+            let exd = physis::exd::EXD::from_existing(b);
+            if let (Some(exh), Some(exd)) = (&exh, &exd) {
+                for id in gen::exd_row_ids(seed) {
+                    let _ = exd.read_row(exh, id);
+                }
+                let _ = exd.read_row(exh, 0xFFFF_FFF0);
+                let _ = exd.read_row(exh, 0);
+            }
+            exd.is_some()
+        }
+        "pbd" => {
+            let p = physis::pbd::PreBoneDeformer::from_existing(b);
+            if let Some(p) = &p {
+                let ids = gen::pbd_body_ids(seed);
+                if ids.len() >= 2 {
+                    let _ = p.get_deform_matrices(*ids.last().unwrap(), ids[0]);
+                    let _ = p.get_deform_matrices(ids[0], ids[1]);
+                    let _ = p.get_deform_matrices(ids[1], ids[0]);
+                }
+            }
+            p.is_some()
+        }
+        "cmp" => physis::cmp::CMP::from_existing(b).is_some(),
+        "tera" => physis::tera::Terrain::from_existing(b).is_some(),
+        "stm" => physis::stm::StainingTemplate::from_existing(b).is_some(),
+        "dic" => physis::dic::Dictionary::from_existing(b).is_some(),
+        "shpk" => {
+            let s = physis::shpk::ShaderPackage::from_existing(b);
+            if let Some(s) = &s {
+                for sel in gen::shpk_selectors(seed) {
+                    let _ = s.find_node(sel);
+                }
+                let _ = s.find_node(0);
+            }
+            s.is_some()
+        }
+        "mtrl" => physis::mtrl::Material::from_existing(b).is_some(),
+        "sklb" => physis::skeleton::Skeleton::from_existing(b).is_some(),
+        "avfx" => physis::avfx::Avfx::from_existing(b).is_some(),
+        "lgb" => physis::layer::LayerGroup::from_existing(b).is_some(),
+        "db" => physis::sqpack::SqPackDatabase::from_existing(b).is_some(),
+        "uld" => physis::uld::Uld::from_existing(b).is_some(),
+        "sgb" => physis::sgb::Sgb::from_existing(b).is_some(),
+        "scd" => physis::scd::Scd::from_existing(b).is_some(),
+        "hwc" => physis::hwc::Hwc::from_existing(b).is_some(),
+        "iwc" => physis::iwc::Iwc::from_existing(b).is_some(),
+        "tmb" => physis::tmb::Tmb::from_existing(b).is_some(),
+        "skp" => physis::skp::Skp::from_existing(b).is_some(),
+        "schd" => physis::schd::Schd::from_existing(b).is_some(),
+        "phyb" => physis::phyb::Phyb::from_existing(b).is_some(),
+        "pap" => physis::pap::Pap::from_existing(b).is_some(),
+        "mdl" => physis::model::MDL::from_existing(b).is_some(),
+        _ => panic!("HARNESS: no parser wired for {}", format),
+    }
+}
+
+pub fn entry_name(format: &str) -> String {
+    match format {
+        "exd" => "EXD::from_existing+read_row".to_string(),
+        "pbd" => "PreBoneDeformer::from_existing+get_deform_matrices".to_string(),
+        "shpk" => "ShaderPackage::from_existing+find_node".to_string(),
+        f => format!("{}::from_existing", f),
+    }
+}
+
+pub fn run_asset(h: &mut Harness, format: &str, seed: u64, damage: &[Damage]) {
+    let mut bytes = build(format, seed);
+    for d in damage {
+        d.apply(&mut bytes);
+        h.at_rest[d.kind_index()] += 1;
+    }
+    // the object is a file at rest on the simulated disk; the caller reads it whole
+    h.fs.h_write("/w/asset/object.bin", bytes);
+    let bytes = h.fs.h_read("/w/asset/object.bin").unwrap();
+    let companion = gen::companion(format, seed);
+    let n = bytes.len() as u64 + companion.as_ref().map(|c| c.len() as u64).unwrap_or(0);
+    let entry = format!("asset:{}", format);
+    let r = h.op(0, &entry, n, || parse(format, seed, &bytes, companion.as_deref())).done();
+    // Asset-buffer violations are classified per format and kind, not per call site: the asset
+    // parsers share a few failure patterns over a very large number of sites, and a stable,
+    // complete classification matters more here than a fine one (DESIGN §5).
+    if let Some(v) = h.violation.as_mut() {
+        let kind = v.sig.split('|').nth(1).unwrap_or("panic").to_string();
+        v.msg = format!("{} [{}; original signature {}]", v.msg, entry_name(format), v.sig);
+        v.sig = format!("C18|asset|{}|{}", format, kind);
+    }
+    h.log(&format!("{} -> {:?}", entry, r));
+    let fi = FORMATS.iter().position(|f| *f == format).unwrap_or(0) as u64;
+    h.state(&[100 + fi, r.map(|x| x as u64 + 1).unwrap_or(0), damage.first().map(|d| d.kind_index() as u64 + 1).unwrap_or(0)]);
+    if damage.is_empty() && r != Some(true) && !h.failed() {
+        h.violate(&format!("HARNESS-asset-builder|{}", format), format!("HARNESS: the undamaged {} object does not parse", format));
+    }
+}
